@@ -40,6 +40,14 @@ static PyObject* arm(PyObject* self, PyObject* args)
     Py_RETURN_NONE;
 }
 
+static PyObject* set_interrupt(PyObject* self, PyObject* noargs)
+{
+    (void)self; (void)noargs;
+    /* the interrupt arrived while the caller was inside a system call: it is pending when the call returns */
+    PyErr_SetInterrupt();
+    Py_RETURN_NONE;
+}
+
 static PyObject* status(PyObject* self, PyObject* noargs)
 {
     (void)self; (void)noargs;
@@ -203,6 +211,7 @@ static PyMethodDef module_methods[] = {
     {"on_instruction", (PyCFunction)(void (*)(void))on_instruction, METH_FASTCALL, "sys.monitoring INSTRUCTION callback"},
     {"arm", arm, METH_VARARGS, "arm(n): set the interrupt at the n-th INSTRUCTION event from now (n<=0: never)"},
     {"status", status, METH_NOARGS, "(events counted, fired)"},
+    {"set_interrupt", set_interrupt, METH_NOARGS, "make a SIGINT pending now (PyErr_SetInterrupt)"},
     {NULL, NULL, 0, NULL},
 };
 
